@@ -622,7 +622,9 @@ def _binders(repo, rep, rule="R04.6", handlers=True, only=None):
                 early = [n for n in ast.walk(m.node)
                          if isinstance(n, ast.Assign) and
                          src(n.targets[0]).replace(" ", "").endswith(
-                             "[0].iter") and "self.visit(" in src(n.value)
+                             "[0].iter") and
+                         src(n.value).replace(" ", "") == "self.visit(%s)" %
+                         src(n.targets[0]).replace(" ", "")
                          and n.lineno < push_line]
                 inside = [n for n in ast.walk(m.node)
                           if isinstance(n, ast.Assign) and
